@@ -295,6 +295,28 @@ pub fn run(cfg: &Cfg) {
             add_links(&mut tree, &mut r, &abs, true);
         }
         materialise(&tree, &abs_root);
+        // directory entries that are neither regular files nor directories: a socket, a symbolic link to a
+        // device. They are no artifacts - nothing is recorded for them, and the files next to them still are.
+        // (The tree model knows files, directories and links only: such runs are judged by the walk oracle.)
+        let mut specials = 0;
+        if i % 7 == 3 {
+            let mut dirs: Vec<std::path::PathBuf> = vec![abs_root.clone()];
+            if let Ok(rd) = std::fs::read_dir(&abs_root) {
+                for e in rd.flatten() {
+                    if std::fs::symlink_metadata(e.path()).map(|m| m.is_dir()).unwrap_or(false) {
+                        dirs.push(e.path());
+                    }
+                }
+            }
+            let d = r.pick(&dirs).clone();
+            if r.chance(1, 2) && std::os::unix::fs::symlink("/dev/null", d.join("zz-null")).is_ok() {
+                specials += 1;
+            }
+            if r.chance(1, 2) && std::os::unix::net::UnixListener::bind(d.join("zz-socket")).is_ok() {
+                specials += 1;
+            }
+            sink.stat(&format!("tree/special-entries={}", specials));
+        }
         std::env::set_current_dir(&abs_root).unwrap();
         let mut targets = vec![];
         all_paths(&tree, &mut vec![], &mut targets);
@@ -433,7 +455,7 @@ pub fn run(cfg: &Cfg) {
         sink.stat(&format!("record/{}/{}", if with_links { "links" } else { "plain" }, show(&res).split(' ').next().unwrap()));
         if unknown_alg {
             sink.oracle(matches!(res, Ok(Err(_))), "an unknown hash algorithm was not rejected", &op);
-        } else if has_sha256 {
+        } else if has_sha256 && specials == 0 {
             sink.op(&op, &show(&res), true);
         }
         if let (false, Ok(Ok(m))) = (unknown_alg, &res) {
